@@ -15,7 +15,8 @@ type HashValue struct {
 
 // Get hashes the sticky value.
 func (v *HashValue) Get(raw *url.URL) string {
-	return v.hash(raw.String())
+	// FindURL compares with the hash of the normalized URL (scheme, host, path)
+	return v.hash(normalized(raw))
 }
 
 // FindURL gets url from array that match the value.
